@@ -500,6 +500,39 @@ func c02DrawExpr(t *rapid.T, cfg vq.GenConfig, maxDNF int, label string, accept 
 	return vq.GenExpr(cfg).Draw(t, label+"leaf")
 }
 
+// c02NegationCost bounds the number of conjuncts the negation of the tag's inlined normal form has before it is
+// simplified: the product over its conjuncts of the number of alternatives each conjunct's negation has.
+// earlier are the tags the definition may refer to (all of them passed this bound, so inlining them is cheap).
+func c02NegationCost(tg *c02Tag, earlier []*c02Tag) int {
+	td := map[string]query.TagDetails{}
+	for _, e := range earlier {
+		td[e.name] = query.TagDetails{Uncertain: c02Bitmask([]uint{0}), Conditions: e.def.Conditions}
+	}
+	inl := tg.def.Conditions.InlineTagFilters(td)
+	cost := 1
+	for _, conj := range inl {
+		alts := 0
+		for _, cc := range conj {
+			switch x := cc.(type) {
+			case *query.DataCondition:
+				alts += len(x.Elements)
+			case *query.FlagCondition:
+				alts += 3
+			default:
+				alts++
+			}
+		}
+		if alts < 1 {
+			alts = 1
+		}
+		cost *= alts
+		if cost > 1<<24 {
+			return 1 << 24
+		}
+	}
+	return cost
+}
+
 func c02GenTags(t *rapid.T, open map[string]bool) (tags []*c02Tag, excluded int) {
 	n := rapid.SampledFrom([]int{0, 1, 1, 2, 2, 3}).Draw(t, "ntags")
 	names := append([]string{}, rapid.Permutation(c02TagNames).Draw(t, "tagnames")[:n]...)
@@ -539,6 +572,16 @@ func c02GenTags(t *rapid.T, open map[string]bool) (tags []*c02Tag, excluded int)
 		tg.nPos, tg.nNeg = 8, 8 // upper bounds; exact when the closure accepted the expression last
 		if pos <= 8 && neg <= 8 {
 			tg.nPos, tg.nNeg = pos, neg
+		}
+		// cost bound: a negated filter on a pending tag makes the engine negate the tag's inlined normal form, which
+		// multiplies the widths of its conjuncts (exponential by construction, exempted by C14's text); keep that
+		// product small for every tag, so that no search of the case can run into it
+		if c02NegationCost(tg, tags) > 20000 {
+			tg.defText = "id::5"
+			if err := tg.parse(); err != nil {
+				t.Fatalf("tag definition %q does not parse: %v", tg.defText, err)
+			}
+			tg.nPos, tg.nNeg, tg.nested = 1, 1, false
 		}
 		if open[fC02NegImpTag] && tg.def.Conditions == nil {
 			// a definition that can never match is inlined wrongly under negation: use one that can
